@@ -1,4 +1,5 @@
 import P2PVerif.Lemmas.SrcIter
+import P2PVerif.Lemmas.DistanceLt
 /-! The regenerated `DHTGet` (p/kademlia/dht.go): what it returns is what a contacted node answered and the caller's
     validator accepted. Proved with the invariant rule for the regenerated `dhtIterate`. -/
 namespace P2PVerif.Src
@@ -165,5 +166,283 @@ theorem DHTGet_good (params : kademlia.DHTGetParamsT)
       unfold getValidate
       rw [hv]
       rfl
+
+/-! ### DHTPut -/
+
+/-- the request `DHTPut` sends to every node it contacts -/
+def putReq (params : kademlia.DHTPutParamsT) : kademlia.PutReqT :=
+  { Key := params.Key, Value := params.Value, TTLms := Go.toU64 (Int.tdiv params.TTL 1000000) }
+
+/-- node `n` answers the put without an error -/
+def putResponds (params : kademlia.DHTPutParamsT) (n : kademlia.NodeInfoT) : Bool :=
+  match params.Ask n (putReq params) with
+  | .ok (_, none) => true
+  | _ => false
+
+/-- node `n` answers the put without an error and accepts -/
+def putAccepts (params : kademlia.DHTPutParamsT) (n : kademlia.NodeInfoT) : Bool :=
+  match params.Ask n (putReq params) with
+  | .ok (resp, none) => resp.Accepted
+  | _ => false
+
+/-- what `DHTPut` guarantees about its counters: they count the nodes it contacted, each with a different id -/
+def PutGood (params : kademlia.DHTPutParamsT) (res : kademlia.DHTPutResultT) : Prop :=
+  ∃ contacted : List kademlia.NodeInfoT, (contacted.map (·.ID)).Nodup ∧
+    res.Contacted = (contacted.length : Int) ∧
+    res.Responded = ((contacted.filter (putResponds params)).length : Int) ∧
+    res.Accepted = ((contacted.filter (putAccepts params)).length : Int)
+
+theorem exists_fn {σ : Type} {key : Go.Bytes} {n : Int}
+    {fn : σ → kademlia.NodeInfoT → Go.M (σ × List kademlia.NodeInfoT × Bool)}
+    {nodes : List kademlia.NodeInfoT} {st0 st : σ} (h : kademlia.dhtIterate nodes key n fn st0 = .ok st) :
+    ∃ f, f = fn ∧ kademlia.dhtIterate nodes key n f st0 = .ok st := ⟨fn, rfl, h⟩
+
+set_option maxHeartbeats 1000000 in
+theorem DHTPut_good_min (params : kademlia.DHTPutParamsT) (hmin : ¬ params.MinAccepted < 1)
+    (hAsk : ∀ n r, ∃ a, params.Ask n r = .ok a)
+    (res : kademlia.DHTPutResultT) (err : Go.Err) (h : kademlia.DHTPut params = .ok (res, err)) :
+    PutGood params res ∧ (err.isSome ↔ res.Accepted < params.MinAccepted) := by
+  unfold kademlia.DHTPut at h
+  simp only [hmin, decide_false, Bool.false_eq_true, if_false] at h
+  obtain ⟨st, hit, hrest⟩ := bind_ok_inv h
+  obtain ⟨fn, hfn, hit⟩ := exists_fn hit
+  have hgood : ∃ seen, seen.Nodup ∧ ∃ ns : List kademlia.NodeInfoT, ns.map (·.ID) = seen ∧
+      st.Contacted = (ns.length : Int) ∧ st.Responded = ((ns.filter (putResponds params)).length : Int) ∧
+      st.Accepted = ((ns.filter (putAccepts params)).length : Int) := by
+    have hspec : ∀ (s : kademlia.DHTPutResultT) (x : kademlia.NodeInfoT), ∃ r, fn s x = Except.ok r ∧
+        r.1.Contacted = s.Contacted + 1 ∧
+        r.1.Responded = s.Responded + (if putResponds params x then 1 else 0) ∧
+        r.1.Accepted = s.Accepted + (if putAccepts params x then 1 else 0) := by
+      intro s x
+      rw [hfn]
+      obtain ⟨⟨resp, e⟩, ha⟩ := hAsk x (putReq params)
+      have ha' := ha
+      unfold putReq at ha'
+      simp only [pure_eq, bind_ok, DistanceLt_eq, ite_ok, ha']
+      refine ⟨_, rfl, ?_⟩
+      have hr : putResponds params x = e.isNone := by
+        unfold putResponds; rw [ha]; cases e <;> rfl
+      have hacc : putAccepts params x = (e.isNone && resp.Accepted) := by
+        unfold putAccepts; rw [ha]; cases e <;> simp
+      rw [hr, hacc]
+      cases e with
+      | some m => simp
+      | none =>
+        cases hra : resp.Accepted with
+        | false => simp [hra]
+        | true =>
+          simp only [Option.isSome_none, Bool.false_eq_true, if_false, hra, if_true, Option.isNone_none, Bool.and_self]
+          repeat' split
+          all_goals simp
+    obtain ⟨seen, hR⟩ := dhtIterate_ok_inv hit (fun s x => ⟨_, (hspec s x).choose_spec.1⟩) (fun _ => True)
+      (fun seen st => seen.Nodup ∧ ∃ ns : List kademlia.NodeInfoT, ns.map (·.ID) = seen ∧
+        st.Contacted = (ns.length : Int) ∧ st.Responded = ((ns.filter (putResponds params)).length : Int) ∧
+        st.Accepted = ((ns.filter (putAccepts params)).length : Int))
+      (by
+        intro seen s node r hr hRs _ hnot
+        obtain ⟨r', hr', h1, h2, h3⟩ := hspec s node
+        rw [hr] at hr'
+        cases hr'
+        obtain ⟨hnd, ns, hns, c1, c2, c3⟩ := hRs
+        refine ⟨⟨List.nodup_cons.2 ⟨hnot, hnd⟩, node :: ns, by simp [hns], ?_, ?_, ?_⟩, fun _ _ => trivial⟩
+        · rw [h1, c1]; simp
+        · rw [h2, c2]; simp only [List.filter_cons]; split <;> simp
+        · rw [h3, c3]; simp only [List.filter_cons]; split <;> simp)
+      (fun _ _ => trivial) ⟨List.nodup_nil, [], rfl, rfl, rfl, rfl⟩
+    exact ⟨seen, hR⟩
+  have hPG : PutGood params st := by
+    obtain ⟨seen, hnd, ns, hns, c1, c2, c3⟩ := hgood
+    exact ⟨ns, hns ▸ hnd, c1, c2, c3⟩
+  simp only [pure_eq] at hrest
+  by_cases hlt : st.Accepted < params.MinAccepted
+  · simp only [hlt, decide_true, if_true] at hrest
+    cases hrest
+    exact ⟨hPG, ⟨fun _ => hlt, fun _ => rfl⟩⟩
+  · simp only [hlt, decide_false, Bool.false_eq_true, if_false] at hrest
+    cases hrest
+    exact ⟨hPG, ⟨fun h => (by cases h), fun h => absurd h hlt⟩⟩
+
+/-- ⊢ what the regenerated `DHTPut` reports, for every network, key, value and list of initial peers: its counters
+    count the nodes it contacted — pairwise different ids —, those that answered, and those that answered "accepted";
+    the error is raised exactly when the accepted count is below the required minimum (2 when the caller asks for
+    less than 1). -/
+theorem DHTPut_good (params : kademlia.DHTPutParamsT) (hAsk : ∀ n r, ∃ a, params.Ask n r = .ok a)
+    (res : kademlia.DHTPutResultT) (err : Go.Err) (h : kademlia.DHTPut params = .ok (res, err)) :
+    PutGood params res ∧
+    (err.isSome ↔ res.Accepted < (if params.MinAccepted < 1 then 2 else params.MinAccepted)) := by
+  by_cases hmin : params.MinAccepted < 1
+  · have h2 : kademlia.DHTPut params = kademlia.DHTPut { params with MinAccepted := 2 } := by
+      unfold kademlia.DHTPut
+      simp [hmin]
+    rw [h2] at h
+    have := DHTPut_good_min { params with MinAccepted := 2 } (by simp) hAsk res err h
+    simp only [hmin, if_true]
+    exact this
+  · simp only [hmin, if_false]
+    exact DHTPut_good_min params hmin hAsk res err h
+
+
+/-! ### DHTFindNode -/
+
+theorem slice_zero {α : Type} (xs : List α) : Go.slice xs 0 0 = .ok [] := by
+  simp [Go.slice]
+
+/-- the validation loop of `DHTFindNode`'s callback always ends (the validator is total) -/
+theorem find_tail {α : Type} (v : kademlia.NodeInfoT → Go.M Bool) (hVal : ∀ x, ∃ b, v x = .ok b)
+    (nodes init : List kademlia.NodeInfoT) (k : List kademlia.NodeInfoT → α) :
+    ∃ q, (do
+        let r_8 ← Go.forEach nodes 0 init (fun (_ : Int) (node2 : kademlia.NodeInfoT) (st : List kademlia.NodeInfoT) => do
+            let t_9 ← v node2
+            (Except.ok (if t_9 = true then Go.Ctl.next (st ++ [node2]) else Go.Ctl.next st) : Go.M (Go.Ctl (List kademlia.NodeInfoT) α)))
+        match r_8 with
+          | Go.Out.ret v_11 => (Except.ok v_11 : Go.M α)
+          | Go.Out.done st_12 => Except.ok (k st_12)) = Except.ok (k q) := by
+  obtain ⟨q, hq, _⟩ := Go.forEach_inv (ρ := α) (fun _ : List kademlia.NodeInfoT => True)
+    (fun (_ : Int) (node2 : kademlia.NodeInfoT) (st : List kademlia.NodeInfoT) => do
+            let t_9 ← v node2
+            (Except.ok (if t_9 = true then Go.Ctl.next (st ++ [node2]) else Go.Ctl.next st) : Go.M (Go.Ctl (List kademlia.NodeInfoT) α)))
+    nodes 0 init trivial (by
+      intro j x s _ _
+      obtain ⟨b, hb⟩ := hVal x
+      simp only [hb, bind_ok]
+      cases b
+      · exact ⟨s, rfl, trivial⟩
+      · exact ⟨s ++ [x], rfl, trivial⟩)
+  exact ⟨q, by rw [hq]; rfl⟩
+
+theorem find_tail_k {α : Type} (v : kademlia.NodeInfoT → Go.M Bool) (hVal : ∀ x, ∃ b, v x = .ok b)
+    (nodes init : List kademlia.NodeInfoT) (kk : Go.Out (List kademlia.NodeInfoT) α → Go.M α) (Φ : α → Prop)
+    (h : ∀ q, ∃ r, kk (.done q) = .ok r ∧ Φ r) :
+    ∃ r, (Go.forEach nodes 0 init (fun (_ : Int) (node2 : kademlia.NodeInfoT) (st : List kademlia.NodeInfoT) => do
+            let t_9 ← v node2
+            (Except.ok (if t_9 = true then Go.Ctl.next (st ++ [node2]) else Go.Ctl.next st) : Go.M (Go.Ctl (List kademlia.NodeInfoT) α)))
+          >>= kk) = Except.ok r ∧ Φ r := by
+  obtain ⟨q, hq, _⟩ := Go.forEach_inv (ρ := α) (fun _ : List kademlia.NodeInfoT => True)
+    (fun (_ : Int) (node2 : kademlia.NodeInfoT) (st : List kademlia.NodeInfoT) => do
+            let t_9 ← v node2
+            (Except.ok (if t_9 = true then Go.Ctl.next (st ++ [node2]) else Go.Ctl.next st) : Go.M (Go.Ctl (List kademlia.NodeInfoT) α)))
+    nodes 0 init trivial (by
+      intro j x s _ _
+      obtain ⟨b, hb⟩ := hVal x
+      simp only [hb, bind_ok]
+      cases b
+      · exact ⟨s, rfl, trivial⟩
+      · exact ⟨s ++ [x], rfl, trivial⟩)
+  rw [hq]
+  exact h q
+
+/-- what `DHTFindNode` guarantees about the node it reports as closest: it was passed to the callback (visited), and
+    no visited node is nearer to the target -/
+def FindGood (params : kademlia.DHTFindNodeParamsT) (have_ : Bool) (res : kademlia.DHTFindNodeResultT)
+    (visited : List Go.Bytes) : Prop :=
+  (have_ = false ∧ visited = [] ∧ res.Closest = zero32) ∨
+  (have_ = true ∧ res.Closest ∈ visited ∧
+    ∀ c ∈ visited, Kad.distanceLt (nb params.Target) (nb c) (nb res.Closest) = false)
+
+set_option maxHeartbeats 1000000 in
+theorem DHTFindNode_good_some (params : kademlia.DHTFindNodeParamsT) (v : kademlia.NodeInfoT → Go.M Bool)
+    (hv : params.Validate = some v)
+    (hAsk : ∀ n r, ∃ a, params.Ask n r = .ok a) (hVal : ∀ x, ∃ b, v x = .ok b)
+    (res : kademlia.DHTFindNodeResultT) (err : Go.Err) (h : kademlia.DHTFindNode params = .ok (res, err)) :
+    (∃ hv' visited, FindGood params hv' res visited) ∧ (err.isSome ↔ res.Closest ≠ params.Target) := by
+  unfold kademlia.DHTFindNode at h
+  simp only [hv, Option.isNone_some, Bool.false_eq_true, if_false] at h
+  obtain ⟨st, hit, hrest⟩ := bind_ok_inv h
+  obtain ⟨fn, hfn, hit⟩ := exists_fn hit
+  have hspec : ∀ (s : Bool × kademlia.DHTFindNodeResultT) (x : kademlia.NodeInfoT), ∃ r, fn s x = Except.ok r ∧
+      ((s.1 = false ∨ Kad.distanceLt (nb params.Target) (nb x.ID) (nb s.2.Closest) = true) →
+        r.1.1 = true ∧ r.1.2.Closest = x.ID) ∧
+      (¬ (s.1 = false ∨ Kad.distanceLt (nb params.Target) (nb x.ID) (nb s.2.Closest) = true) →
+        r.1.1 = s.1 ∧ r.1.2.Closest = s.2.Closest) := by
+    intro s x
+    rw [hfn]
+    obtain ⟨hc, rs⟩ := s
+    obtain ⟨⟨resp, e⟩, ha⟩ := hAsk x { Target := params.Target, Limit := 3 }
+    simp only [pure_eq, bind_ok, DistanceLt_eq, ite_ok, Option.getD_some, ha, slice_zero]
+    cases hc <;> cases hlt : Kad.distanceLt (nb params.Target) (nb x.ID) (nb rs.Closest) <;>
+      simp only [Bool.not_true, Bool.not_false, Bool.false_eq_true, if_false, if_true, true_or, or_true, or_false, false_or,
+        not_true_eq_false, not_false_eq_true, forall_const, false_implies, implies_true, and_true, true_and, reduceCtorEq] <;>
+      (repeat' split) <;>
+      first
+        | exact ⟨_, rfl, rfl, rfl⟩
+        | (apply find_tail_k v hVal; intro q; exact ⟨_, rfl, rfl, rfl⟩)
+  have hinv : ∃ seen, FindGood params st.1 st.2 seen := by
+    refine dhtIterate_ok_inv hit (fun s x => ⟨_, (hspec s x).choose_spec.1⟩) (fun _ => True)
+      (fun seen s => FindGood params s.1 s.2 seen) ?_ (fun _ _ => trivial) (.inl ⟨rfl, rfl, rfl⟩)
+    intro seen s node r hr hRs _ _
+    obtain ⟨r', hr', h1, h2⟩ := hspec s node
+    rw [hr] at hr'
+    cases hr'
+    refine ⟨?_, fun _ _ => trivial⟩
+    by_cases hcond : s.1 = false ∨ Kad.distanceLt (nb params.Target) (nb node.ID) (nb s.2.Closest) = true
+    · obtain ⟨e1, e2⟩ := h1 hcond
+      right
+      refine ⟨e1, by rw [e2]; simp, ?_⟩
+      intro c hc
+      rw [e2]
+      rcases List.mem_cons.1 hc with hc | hc
+      · rw [hc]; exact Kad.distanceLt_irrefl _ _
+      · rcases hRs with ⟨_, hnil, _⟩ | ⟨hs1, _, hall⟩
+        · rw [hnil] at hc; cases hc
+        · rcases hcond with hf | hlt
+          · rw [hs1] at hf; cases hf
+          · cases hcn : Kad.distanceLt (nb params.Target) (nb c) (nb node.ID) with
+            | false => rfl
+            | true =>
+              have := Kad.distanceLt_trans _ _ _ _ hcn hlt
+              rw [hall c hc] at this
+              cases this
+    · obtain ⟨e1, e2⟩ := h2 hcond
+      have hs1 : s.1 = true := by
+        cases hs : s.1 with
+        | true => rfl
+        | false => exact absurd (.inl hs) hcond
+      have hnlt : Kad.distanceLt (nb params.Target) (nb node.ID) (nb s.2.Closest) = false := by
+        cases hl : Kad.distanceLt (nb params.Target) (nb node.ID) (nb s.2.Closest) with
+        | false => rfl
+        | true => exact absurd (.inr hl) hcond
+      rcases hRs with ⟨hf, _, _⟩ | ⟨_, hmem, hall⟩
+      · rw [hs1] at hf; cases hf
+      · right
+        refine ⟨e1.trans hs1, by rw [e2]; exact List.mem_cons_of_mem _ hmem, ?_⟩
+        intro c hc
+        rw [e2]
+        rcases List.mem_cons.1 hc with hc | hc
+        · rw [hc]; exact hnlt
+        · exact hall c hc
+  obtain ⟨seen, hG⟩ := hinv
+  simp only [pure_eq] at hrest
+  by_cases hne : st.2.Closest = params.Target
+  · simp only [hne, ne_eq, not_true_eq_false, decide_false, Bool.false_eq_true, if_false] at hrest
+    cases hrest
+    exact ⟨⟨_, _, hG⟩, ⟨fun h => (by cases h), fun h => absurd hne h⟩⟩
+  · simp only [ne_eq, hne, not_false_eq_true, decide_true, if_true] at hrest
+    cases hrest
+    exact ⟨⟨_, _, hG⟩, ⟨fun _ => hne, fun _ => rfl⟩⟩
+
+
+/-- with no validator the translation installs the accept-all one: same run -/
+theorem DHTFindNode_default_validator (params : kademlia.DHTFindNodeParamsT) (h : params.Validate = none) :
+    kademlia.DHTFindNode params = kademlia.DHTFindNode { params with Validate := some (fun _ => pure true) } := by
+  unfold kademlia.DHTFindNode
+  simp [h]
+
+/-- ⊢ what the regenerated `DHTFindNode` reports: the closest node it reports was passed to its callback and no
+    node passed to the callback is nearer to the target; the error is raised exactly when that node is not the target -/
+theorem DHTFindNode_good (params : kademlia.DHTFindNodeParamsT)
+    (hAsk : ∀ n r, ∃ a, params.Ask n r = .ok a)
+    (hVal : ∀ x, ∃ b, (params.Validate.getD (fun _ => pure true)) x = .ok b)
+    (res : kademlia.DHTFindNodeResultT) (err : Go.Err) (h : kademlia.DHTFindNode params = .ok (res, err)) :
+    (∃ hv' visited, FindGood params hv' res visited) ∧ (err.isSome ↔ res.Closest ≠ params.Target) := by
+  cases hv : params.Validate with
+  | some v =>
+    refine DHTFindNode_good_some params v hv hAsk ?_ res err h
+    intro x
+    have := hVal x
+    rwa [hv] at this
+  | none =>
+    rw [DHTFindNode_default_validator params hv] at h
+    exact DHTFindNode_good_some { params with Validate := some (fun _ => pure true) } (fun _ => pure true) rfl hAsk
+      (fun _ => ⟨true, rfl⟩) res err h
 
 end P2PVerif.Src
